@@ -66,7 +66,23 @@ fn not_in_with_null(q: &Query, db: &DbDef) -> bool {
         Query::Core(c) => {
             let mut ts = vec![];
             c.from.tables(&mut ts);
-            c.where_.as_ref().map(|w| pred_has(w, db, &ts)).unwrap_or(false)
+            // an outer join NULL-extends rows: a NULL can reach the probe although no table holds one
+            fn has_outer(f: &From) -> bool {
+                match f {
+                    From::Table(_) => false,
+                    From::Left(..) | From::Right(..) | From::Full(..) => true,
+                    From::Cross(l, r) | From::Inner(l, r, _) => has_outer(l) || has_outer(r),
+                }
+            }
+            fn has_not_in(p: &Pred) -> bool {
+                match p {
+                    Pred::InSub(_, _, true) => true,
+                    Pred::And(a, b) | Pred::Or(a, b) => has_not_in(a) || has_not_in(b),
+                    Pred::Not(a) => has_not_in(a),
+                    _ => false,
+                }
+            }
+            c.where_.as_ref().map(|w| pred_has(w, db, &ts) || (has_outer(&c.from) && has_not_in(w))).unwrap_or(false)
         }
         Query::SetOp(_, _, l, r) => not_in_with_null(l, db) || not_in_with_null(r, db),
     }
